@@ -46,7 +46,9 @@ Section Legacy.
           (rp_revealed (p_rp P)) ;;
     iter (fun '(r, (i, vals)) =>
           sp <- of_opt (nthZ (p_proofs P) i) ;; ai <- of_opt (assoc r (rq_attrs R)) ;; ns <- of_opt (ai_names ai) ;;
-          _ <- guard (Nat.eqb (List.length vals) (List.length ns)) ;;
+          _ <- guard (if f_group_keys cfg
+                      then Nat.eqb (List.length vals) (List.length (dedup_s ns)) && forallb (fun kv => mem (fst kv) ns) vals
+                      else Nat.eqb (List.length vals) (List.length ns)) ;;
           iter (fun n => v <- of_opt (assoc n vals) ;; verify_value n sp (snd v)) ns)
           (rp_groups (p_rp P)).
 
@@ -78,11 +80,11 @@ Section Legacy.
           | Some q =>
               id <- of_opt (assoc r attr_ids) ;; f <- gather_filter cx id ;;
               m <- match ai_name ai, ai_names ai with
-                   | Some n, _ => ROk [(n, option_map (fun x => snd (fst x)) (assoc r (rp_revealed rp)))]
+                   | Some n, _ => ROk [(tagkey cfg n, option_map (fun x => snd (fst x)) (assoc r (rp_revealed rp)))]
                    | None, Some ns =>
                        match assoc r (rp_groups rp) with
-                       | Some g => ROk (map (fun n => (n, option_map fst (assoc n (snd g)))) ns)
-                       | None => if f_group_unrevealed cfg then ROk (map (fun n => (n, None)) ns) else RErr
+                       | Some g => ROk (rev (map (fun n => (tagkey cfg n, option_map fst (assoc n (snd g)))) ns))
+                       | None => if f_group_unrevealed cfg then ROk (map (fun n => (tagkey cfg n, None)) ns) else RErr
                        end
                    | None, None => RErr end ;;
               guard (eval cfg m f q)
@@ -96,13 +98,13 @@ Section Legacy.
               rv <- mapR (fun '(ar, (i, raw, _)) =>
                       if i =? idx then
                         match assoc ar requested with
-                        | Some ai => ROk (match ai_name ai with Some n => [(n, Some raw)] | None => [] end)
+                        | Some ai => ROk (match ai_name ai with Some n => [(tagkey cfg n, Some raw)] | None => [] end)
                         | None => if f_no_unwrap_panic cfg then ROk [] else RPanic    (* .unwrap() *)
                         end
                       else ROk []) (rp_revealed rp) ;;
-              let gv := flat_map (fun '(_, (i, vals)) => if i =? idx then map (fun '(n, (raw, _)) => (n, Some raw)) vals else []) (rp_groups rp) in
+              let gv := flat_map (fun '(_, (i, vals)) => if i =? idx then map (fun '(n, (raw, _)) => (tagkey cfg n, Some raw)) vals else []) (rp_groups rp) in
               (* HashMap inserts: later inserts win; lookups see the last binding, so put later ones first *)
-              guard (eval cfg (rev gv ++ rev (List.concat rv) ++ [(pi_name pi, None)]) f q)
+              guard (eval cfg (rev gv ++ rev (List.concat rv) ++ [(tagkey cfg (pi_name pi), None)]) f q)
           end) (rq_preds R).
 
   (* build_revocation_registry_map *)
@@ -132,16 +134,16 @@ Section Legacy.
     let p := fold_left (fun acc pi => merge_opt acc (pi_nr pi)) pis None in
     ROk (merge_opt a p).
 
-  (* check_non_revoked_interval *)
-  Definition interval_check (R : request) (cx : ctx) (cd : creddef) (local : option interval) (id : identifier) (sp : subproof) : res unit :=
+  (* check_non_revoked_interval: Ok true = an interval applies to this credential (and is met) *)
+  Definition interval_check (R : request) (cx : ctx) (cd : creddef) (local : option interval) (id : identifier) : res bool :=
     match cd_revkey cd with
-    | None => ROk tt
+    | None => ROk false
     | Some _ =>
         if f_gate_on_creddef cfg then
           (* the interval that applies does not depend on what the prover wrote into rev_reg_id *)
           let i := match local with Some l => Some l | None => rq_nr R end in
           match i with
-          | None => ROk tt
+          | None => ROk false
           | Some iv0 =>
               rid <- of_opt (id_revreg id) ;;
               t <- of_opt (id_ts id) ;;
@@ -149,14 +151,17 @@ Section Legacy.
                         | Some maps => match assoc rid maps with Some m => override m iv0 | None => iv0 end
                         | None => iv0 end in
               _ <- guard (is_valid iv t) ;;
-              guard (negb (f_require_nrp cfg) || match sp_nrp sp with Some _ => true | None => false end)
+              ROk true
           end
         else
           match requested_interval (id_revreg id) local (rq_nr R) (cx_override cx) with
-          | None => ROk tt
-          | Some iv => t <- of_opt (id_ts id) ;; guard (is_valid iv t)
+          | None => ROk false
+          | Some iv => t <- of_opt (id_ts id) ;; _ <- guard (is_valid iv t) ;; ROk false
           end
     end.
+  (* require_non_revocation_proof *)
+  Definition require_nrp (needed : bool) (sp : subproof) : res unit :=
+    guard (negb (f_require_nrp cfg) || negb needed || match sp_nrp sp with Some _ => true | None => false end).
   Definition interval_applies (R : request) (cd : creddef) (local : option interval) : bool :=
     match cd_revkey cd with
     | None => false
@@ -207,9 +212,10 @@ Section Legacy.
     | [] => ROk []
     | id :: r =>
         local <- local_interval R P i ;;
-        sp <- (if f_no_index_panic cfg then of_opt (nthZ (p_proofs P) i) else of_opt_panic (nthZ (p_proofs P) i)) ;;
         cd <- of_opt (assoc (id_creddef id) (cx_creddefs cx)) ;;
-        _ <- interval_check R cx cd local id sp ;;
+        needed <- interval_check R cx cd local id ;;
+        sp <- (if f_no_index_panic cfg then of_opt (nthZ (p_proofs P) i) else of_opt_panic (nthZ (p_proofs P) i)) ;;
+        _ <- require_nrp needed sp ;;
         _ <- check_requested_preds R P i sp ;;
         _ <- check_unrevealed_names R P cx i id ;;
         x <- add_sub_proof cx regmap sp id ;;
